@@ -23,7 +23,7 @@ RULE = ("Hypothesis: graphs whose instance IRIs are built from drawn scheme (htt
         "constraints equal to those of a run without the options.  Non-trivial: >=2 instances whose IRIs diverge after a shared segment; "
         "distinct by SHA-1 of the case.")
 ASSUMPTIONS = c01.ASSUMPTIONS
-BUDGET = {"quick": {"examples": 24000, "wall": 150}, "thorough": {"examples": 800000, "wall": 5400}}
+BUDGET = {"quick": {"examples": 24000, "wall": 150}, "thorough": {"examples": 400000, "wall": 900}}
 FLOORS = {"nontrivial": 0.15, "stem-printed": 0.15, "stem-absent": 0.02, "examples": 0.2}
 SCHEME_ONLY = ("http://", "https://", "http:", "https:", "http:/", "https:/")
 
